@@ -1,5 +1,6 @@
 """C11 — functions give the same answer for JSON text as for its JSONB encoding (structural clauses)."""
 import report
+from rules import accessors
 from rules import dispatch, c10, c12, editing
 from mir import callee_name
 from pat import canon
@@ -60,4 +61,8 @@ def check(ctx, run):
     c12.tree_twin_guards(ctx, run, 'R11.4/R12.2')
     c12.tree_twin_counts(ctx, run, 'R11.4/R12.2')
     twin_case_folding(ctx, run, 'R11.4')
+    import boundaries
+    _bf = lambda p_: p_ in ('functions::get_by_keypath',)
+    boundaries.check(ctx, run, 'R11.4/bounds', [p_ for p_ in sorted(boundaries.load_baseline() or {}) if _bf(p_)], 'the text branch and the JSONB branch of an accessor reject positions')
+    accessors.name_variants_alike(ctx, run, 'R11.4/names', lambda p_: p_.startswith('functions::'))
     return report.finish(run, level='other', explanation=EXPLANATION, assumptions=["is_jsonb is the library's own representation sniff; text beginning with a space is excluded by the property"])
